@@ -34,7 +34,7 @@ from . import extract
 from .engine import And, ContractMismatch, Engine, Or, simp
 from .kinds import (
     K_BOOL, K_INT, K_NONE, K_REAL, K_STR, NONE, BoolV, ClosureV, ConstV, DictV, FuncV, IntV,
-    KDict, KList, KObj, KOpaque, KOpt, KSet, KTuple, KUnion, Kind, ListV, NoneV, ObjV,
+    KDict, KFn, KList, KObj, KOpaque, KOpt, KSet, KTuple, KUnion, Kind, ListV, NoneV, ObjV,
     OpaqueV, RaiseV, RealV, StrV, TupleV, UnionV, Unsupported, V, box, fits, fresh, named,
     unbox,
 )
@@ -76,7 +76,6 @@ def parse_kind(e: ast.expr, env: dict) -> Kind:
         if e.func.id == "Opaque":
             return KOpaque(e.args[0].value)
         if e.func.id == "Fn":
-            from .kinds import KFn
 
             ret = [parse_kind(k.value, env) for k in e.keywords if k.arg == "ret"][0]
             return KFn([parse_kind(a, env) for a in e.args], ret)
@@ -292,8 +291,8 @@ class Contract:
         # a union-valued argument (Optional, ...) that does not fit the declared kind as a whole is split
         # into its feasible alternatives; infeasible ones (e.g. None after a truthiness test) are pruned
         for i, v in enumerate(pos):
-            if isinstance(v, UnionV) and i < len(self.params) and not isinstance(self.params[i][1], (KOpt, KUnion)) \
-                    and not is_typevar(self.params[i][1]):
+            if isinstance(v, UnionV) and i < len(self.params) and not is_typevar(self.params[i][1]) \
+                    and not isinstance(self.params[i][1], KFn) and not fits(v, self.params[i][1]):
                 outs = []
                 for s2, alt in eng.split(st, v):
                     outs.extend(self.apply(eng, s2, [*pos[:i], alt, *pos[i + 1:]], kw, node))
@@ -316,7 +315,6 @@ class Contract:
                 r = eng.eval(d, State({}, st.pc))
                 bound[n] = r[0][1]
             v = bound[n]
-            from .kinds import KFn
 
             if isinstance(k, KFn):
                 env[n] = v
@@ -792,7 +790,15 @@ def _cf_replace(eng, st, pos, kw):
     return [(st, o)]
 
 
+def _cf_parsed_kids(eng, st, pos, kw):
+    """ParsedKids(tag, text): children obtained by re-parsing a label fragment (DOM model, uninterpreted)."""
+    from . import dom_model
+
+    return [(st, ListV(dom_model.XNODE, dom_model.parsed_kids()(pos[0].t, pos[1].t)))]
+
+
 CONTRACT_FUNCS = {
+    "ParsedKids": FuncV(_cf_parsed_kids, "ParsedKids"),
     "some": FuncV(_cf_some, "some"),
     "replace": FuncV(_cf_replace, "replace"),
     "Writer_append": FuncV(_cf_writer_append, "Writer_append"),
@@ -939,7 +945,6 @@ class Verifier(Engine):
         for n, k, _ in list(c.params) + ([(c.kwarg[0], c.kwarg[1], None)] if c.kwarg else []):
             v = named(k, f"p_{n}")
             env[n] = v
-            from .kinds import KFn
 
             if not isinstance(k, KFn):
                 inputs[n] = (box(v, k), k)
